@@ -343,7 +343,7 @@ def jobs_for(seed: int, tier: str) -> list[dict]:
       {'n': 4, 'shape': sparse, 'gates': 'cx-u3'}, 1, cseed=seed)
     # regression (fixed ea1f82a): a list of circuits with equal operation counts
     J('probe-list-equal-ops', 'circuit', [circ(2, 3), circ(2, 3)],
-      {'n': 2, 'shape': 'a2a', 'gates': 'cx-u3'}, 1)
+      {'n': 2, 'shape': 'a2a', 'gates': 'cx-u3'}, 1, ms=2, thr=1e-2)
     J('circ-3q-gate', 'circuit', [circ(4, rng.randint(5, 7), three=True)],
       {'n': rng.choice([4, 5]), 'shape': rng.choice(['star', 'line']),
        'gates': 'cx-u3'}, rng.choice([1, 2]), ms=3)
@@ -415,12 +415,12 @@ def jobs_for(seed: int, tier: str) -> list[dict]:
     for lvl in (2, 3, 4):
         J(f'cell-circuit-L{lvl}', 'circuit',
           [circ(2, 4, measure=(lvl == 2), barrier=(lvl == 3))],
-          {'n': 2, 'shape': 'line', 'gates': 'cx-u3'}, lvl)
+          {'n': 2, 'shape': 'line', 'gates': 'cx-u3'}, lvl, ms=2, thr=1e-2)
     for lvl in (1, 2, 3, 4):
         # one-qubit unitaries; the VariableUnitaryGate model is the regression of 10f69ef
         J(f'cell-unitary-L{lvl}', 'unitary',
           [{'t': 'unitary', 'width': 1, 'radix': 2, 'style': 'haar'}],
-          {'n': 1, 'shape': 'a2a',
+          {'n': 1, 'shape': 'line',
            'gates': 'cz-varu' if lvl in (1, 3) else 'cx-u3'}, lvl)
     # states: |1> passes the one-qudit search (most of the time at level 2, always at level 3)
     # and then reaches the single-qudit retarget and ScanningGateRemovalPass (regression of
@@ -435,16 +435,16 @@ def jobs_for(seed: int, tier: str) -> list[dict]:
           {'n': 1, 'shape': 'a2a', 'gates': 'cx-u3'}, lvl, local=True)
     J('cell-state-L4', 'state',
       [{'t': 'state', 'width': 2, 'radix': 2, 'style': 'ghz'}],
-      {'n': 2, 'shape': 'a2a', 'gates': 'cx-u3'}, 4, local=True,
-      expect='pas-on-state')
+      {'n': 2, 'shape': 'a2a', 'gates': 'cx-u3'}, 4, ms=2, thr=1e-2,
+      local=True, expect='pas-on-state')
     for lvl in (2, 3):
         J(f'cell-system-L{lvl}', 'system',
           [{'t': 'system', 'width': 2, 'radix': 2, 'npairs': 1}],
-          {'n': 2, 'shape': 'a2a', 'gates': 'cx-u3'}, lvl)
+          {'n': 2, 'shape': 'a2a', 'gates': 'cx-u3'}, lvl, ms=2, thr=1e-2)
     J('cell-system-L4', 'system',
       [{'t': 'system', 'width': 2, 'radix': 2, 'npairs': 1}],
-      {'n': 2, 'shape': 'a2a', 'gates': 'cx-u3'}, 4, local=True,
-      expect='pas-on-state')
+      {'n': 2, 'shape': 'a2a', 'gates': 'cx-u3'}, 4, ms=2, thr=1e-2,
+      local=True, expect='pas-on-state')
     # --- probes of the recorded raise findings (in process)
     J('probe-state-1q-L2', 'state',
       [{'t': 'state', 'width': 1, 'radix': 2, 'style': 'plus'}],
@@ -455,12 +455,12 @@ def jobs_for(seed: int, tier: str) -> list[dict]:
       {'n': 1, 'shape': 'a2a', 'gates': 'cx-u3'}, 1, local=True,
       expect='one-qudit-state')
     J('probe-czvaru-circuit', 'circuit', [circ(2, 4)],
-      {'n': 2, 'shape': 'line', 'gates': 'cz-varu'}, 1, local=True,
-      expect='no-instantiater')
+      {'n': 2, 'shape': 'line', 'gates': 'cz-varu'}, 1, ms=2, thr=1e-2,
+      local=True, expect='no-instantiater')
     J('probe-czvaru-unitary', 'unitary',
       [{'t': 'unitary', 'width': 2, 'radix': 2, 'style': 'haar'}],
-      {'n': 2, 'shape': 'line', 'gates': 'cz-varu'}, 1, local=True,
-      expect='no-instantiater')
+      {'n': 2, 'shape': 'line', 'gates': 'cz-varu'}, 1, ms=2, thr=1e-2,
+      local=True, expect='no-instantiater')
     J('probe-qutrit-state', 'state',
       [{'t': 'state', 'width': 1, 'radix': 3, 'style': 'random'}],
       {'n': 1, 'shape': 'a2a', 'gates': 'qutrit', 'radix': 3}, 1, local=True,
@@ -528,7 +528,7 @@ def jobs_for(seed: int, tier: str) -> list[dict]:
     #     raised on qutrit blocks before the fix d7fbe96)
     J('probe-qutrit-sq', 'circuit',
       [{'t': 'qutrit-sq'}], {'n': 2, 'shape': 'a2a', 'gates': 'qutrit',
-                             'radix': 3}, 1)
+                             'radix': 3}, 1, ms=2, thr=1e-2)
     # keep the batch inside compile()'s own input domain (its argument guards, transcribed in
     # translate/workflows.py and compared with the real ones by malformed_stream)
     from translate.workflows import outside_compile_domain
